@@ -51,3 +51,16 @@ Theorem c15_complement (W F K : IPS) (Fm : F -> W) (Fmt : W -> F) (Km : K -> W) 
   forall v, (M v = v /\ Fmt v = vzero) <-> exists z, v = Km z /\ Kmt (M (Km z)) = z.
 Proof. exact (complement_complete W F K Fm Fmt Km Kmt M). Qed.
 Print Assumptions c15_complement.
+
+(** Auxiliary code on this property's path is the recorded source (the CSR block container DataCSR and the block extraction of the eigen-solvers):
+    whole-function match, regenerated on every run. *)
+From SymfcG Require Import ShapesAuxEig.
+Theorem c15_recorded_sources3_in_force : ShapesAuxEig_as_recorded = true.
+Proof. repeat split; reflexivity. Qed.
+
+(** What the modules on this property's path consist of besides the function bodies is the recorded one: every signature with its
+    defaults and keyword-only arguments, decorators, class bases, method lists and module-level statements (imports, constants) --
+    regenerated on every run. *)
+From SymfcG Require Import SkelEig.
+Theorem c15_module_skeletons_in_force : SkelEig_as_recorded = true.
+Proof. repeat split; reflexivity. Qed.
